@@ -16,15 +16,21 @@ KANI = [
      ]},
     {"mode": "in_crate", "repo_crate": "gix-index", "harness_prefix": "write::verif_kani::kani_proofs::", "unit_suffix": "w",
      "harnesses": [
-        H("write_entries_1_2", ["C25"], "2 entries, paths of 1 and 2 arbitrary bytes, all stat/mode/id/flag values, header offset 0 or 12", functions=WR),
-        H("write_entries_2_1", ["C25"], "paths of 2 and 1 bytes", functions=WR),
-        H("write_entries_3_6", ["C25"], "paths of 3 and 6 bytes", functions=WR),
-        H("write_entries_6_1", ["C25"], "paths of 6 and 1 bytes", tier="thorough", functions=WR),
-        H("write_entries_9_10", ["C25"], "paths of 9 and 10 bytes", tier="thorough", functions=WR),
+        {"name": "flag_words", "props": ["C25", "C24"], "tier": "quick", "kind": "full", "bound": "every u32 of in-memory flags x every length field x every u16 extended word (loop-free)", "timeout": 900, "mem_gb": 12,
+         "functions": ["gix_index::entry::Flags::to_storage", "gix_index::entry::at_rest::Flags::to_memory", "gix_index::entry::at_rest::FlagsExtended::from_flags", "gix_index::entry::at_rest::FlagsExtended::to_flags"]},
+        H("write_entry_1", ["C25"], "1 entry, path of 1 arbitrary byte, all stat/mode/id/flag values, header offset 0 or 12", tier="off", mem_gb=16, functions=WR),
+        H("write_entry_2", ["C25"], "1 entry, path of 2 bytes", tier="off", mem_gb=16, functions=WR),
+        H("write_entry_5", ["C25"], "1 entry, path of 5 bytes", tier="off", mem_gb=16, functions=WR),
+        H("write_entry_9", ["C25"], "1 entry, path of 9 bytes", tier="off", mem_gb=16, functions=WR),
+        H("write_entries_1_2", ["C25"], "2 entries, paths of 1 and 2 arbitrary bytes, all stat/mode/id/flag values, header offset 0 or 12", tier="off", functions=WR),
+        H("write_entries_2_1", ["C25"], "paths of 2 and 1 bytes", tier="off", functions=WR),
+        H("write_entries_3_6", ["C25"], "paths of 3 and 6 bytes", tier="off", functions=WR),
+        H("write_entries_6_1", ["C25"], "paths of 6 and 1 bytes", tier="off", functions=WR),
+        H("write_entries_9_10", ["C25"], "paths of 9 and 10 bytes", tier="off", functions=WR),
      ]},
 ]
 ASSUMPTIONS = [
     ("C24", "only the per-entry layout clause is under contract: an entry decoded by load_one has git's documented fields and occupies align8(62+ext+len+1) bytes (V2/V3), including the saturated 0xfff length field. Thread-limit independence, extensions, V4 path compression and 'what git stored' as a whole are undecided"),
-    ("C25", "only the per-entry clause: bytes written by write::entries follow git's documented entry layout (fields, flag words, NUL padding, contiguity). Checksum, header, extensions, and 'git accepts the file' are undecided; the 0xfff saturation of the length field is checked by expression only (a 4095-byte path is outside the bounds)"),
+    ("C25", "ONLY the flag-word clause is decided (full domain): the 16-bit flags word and the extended word produced from in-memory flags have git's bit layout and decode back. The byte layout written by write::entries / Entry::write_to (field order, NUL padding to 8, 0xfff saturation of the length field) is NOT decided: every harness through that code exhausts CBMC (io::Result drop glue is unrolled recursively up to the unwind bound: > 25 min / > 30 GB even for one entry with a 1-byte path); those harnesses are kept with tier 'off'. Checksum, header, extensions and 'git accepts the file' are undecided as well"),
     ("C24", "the layout specification is git's documentation (gitformat-index, ondisk_ce_size), written as assertions in contracts/index/*.rs"),
 ]
